@@ -1362,8 +1362,10 @@ class Spec(object):
             # a copy of a repo object: a new object of the same class whose attributes are copies (containers one level deep; symbolic values are immutable terms)
             src = args[0]
             new = Instance(src.cls)
+            deep = getattr(f, "__name__", "") == "deepcopy"
             for k_, v_ in src.attrs.items():
-                new.attrs[k_] = list(v_) if isinstance(v_, list) else dict(v_) if isinstance(v_, dict) else set(v_) if isinstance(v_, set) else v_
+                # copy.copy shares every attribute value with the original; deepcopy gives the copy its own containers
+                new.attrs[k_] = v_ if not deep else list(v_) if isinstance(v_, list) else dict(v_) if isinstance(v_, dict) else set(v_) if isinstance(v_, set) else v_
             if hasattr(src, "prim"):
                 new.prim = src.prim
             return new
